@@ -47,6 +47,9 @@ def followup(stage, lines, model, checked, release, tier, rng):
                 reqs.append((K.sign_raw(s, R(n), sk, 0), "raw", None, None))
             m = R(60)
             reqs.append(("@impl " + K.sign_raw(s, m, sk, 1).rsplit(" ", 1)[0] + " real", "raw", None, None))
+            # signing into a caller's buffer longer than SIGNBYTES: the SIGNBYTES written must verify
+            for extra in (1, 33, 64):
+                reqs.append(("@impl sign::%s::signature_cap %d %s %s 0 -" % (s, extra, K.hx(R(20 + extra)), sk), "raw", None, None))
             if p.mldsa:
                 for ctx in (None, b"", R(1), R(255)):
                     reqs.append((K.api_sign(s, sk, m, ctx, 0), "api", ctx, None))
@@ -81,7 +84,7 @@ def followup(stage, lines, model, checked, release, tier, rng):
             t = e["req"].replace("@impl ", "").split()
             s = e["set"]
             if e["kind"] == "raw":
-                v = K.verify_raw(s, sig, K.unhx(t[1]), e["pk"])
+                v = K.verify_raw(s, sig, K.unhx(t[2] if "signature_cap" in t[0] else t[1]), e["pk"])
             else:
                 msg = K.unhx(t[2])
                 ctx = None if t[3] == "none" else K.unhx(t[3])
